@@ -9,7 +9,34 @@ import asyncio as aio
 from vf.sim.world import World, classify_stop
 
 TRACE = ('aiuti/asyncio.py',)
-ELEMS = [0, None, '', False, 1, 1, 'x', (), 0.0]
+class AlwaysEqual:
+    """Compares equal to everything (like unittest.mock.ANY): only identity tells it apart."""
+
+    def __eq__(self, other):
+        return True
+
+    def __ne__(self, other):
+        return False
+
+    __hash__ = None
+
+    def __repr__(self):
+        return 'ANY'
+
+
+class NeverComparable:
+    """An element whose == is not a plain bool (array-like objects)."""
+
+    def __eq__(self, other):
+        raise ValueError('the truth value of this comparison is ambiguous')
+
+    __hash__ = None
+
+    def __repr__(self):
+        return 'ARRAYLIKE'
+
+
+ELEMS = [0, None, '', False, 1, 1, 'x', (), 0.0, AlwaysEqual(), NeverComparable()]
 TICK = 1 / 8
 
 
